@@ -1,6 +1,7 @@
 package ref
 
 import (
+	"math"
 	"reflect"
 	"regexp"
 	"strconv"
@@ -873,6 +874,13 @@ func JudgeRule(key, arg string, v reflect.Value, fs FSOracle) Tri {
 			return IntStr(s)
 		case reflect.Int, reflect.Int8, reflect.Int16, reflect.Int32, reflect.Int64, reflect.Uint, reflect.Uint8, reflect.Uint16, reflect.Uint32, reflect.Uint64:
 			return In
+		case reflect.Float32, reflect.Float64:
+			// "整数型验证": a number with a fractional part is no integer under any reading; whether 2.0 held in a
+			// float-typed field counts as one is left open
+			if f := v.Float(); f != math.Trunc(f) {
+				return Out
+			}
+			return Unspec
 		}
 		return Unspec
 	case "float":
